@@ -1,5 +1,6 @@
 import AlgoVerif.Model.C08
 import AlgoVerif.Model.C08Aux
+import AlgoVerif.Model.C08Hist
 import AlgoVerif.Model.C10Ext
 import AlgoVerif.Spec.C08
 /-!
@@ -24,6 +25,12 @@ A case is the grammar description (`terms …`, `nonterms …`, `start S`, `prod
   `lcp α | β | …` → `ok <longest common prefix>` (`LongestCommonPrefixOf`; `lcp none`: of no strings);  `strops α | β` → `ok prefix=… suffix=… prepend=<β α> anyterm=…`
   (`α.HasPrefix(β)`, `α.HasSuffix(β)`, `α.Prepend(β...)`, `α.AnyMatch(IsTerminal)`).
   In arguments `'x` is the terminal `x`, `^Z` the non-terminal `Z` (declared or not), any other word a non-terminal iff declared.
+
+A case whose header says `comp=history` is a history over grammar objects (`Model/C08Hist.lean`): the described grammar is
+the value of slot 0 and the ops are `apply i T j` (T a transformation or `clone`; `ok <grammar>` | `panic` | `hang`),
+`addprod i H : α`, `rmprod i H : α`, `addnt i N`, `addterm i t` (each `ok <grammar of slot i>`), `nullable i` → `ok [A B]`,
+`analyse i` → `ok nullable=[A B]` | `ok not-valid`, `prods i`, `lang i k`, `eq i j`; an op on an empty slot answers
+`ok undefined`; after a `panic` / `hang` the rest of the case is answered `skip`.
 -/
 namespace AlgoVerif.C08.Driver
 open AlgoVerif AlgoVerif.Gram AlgoVerif.C08
@@ -217,7 +224,94 @@ def runWith (extra : G → List String → Option String) (ops : List String) : 
         | none => out := out.push "bad-op"
   return out.toList
 
-def runCase (_hdr : List String) (ops : List String) : List String :=
-  runWith (fun _ _ => none) ops
+/-! ### histories over grammar objects (`comp=history`) -/
+
+def showNames (ns : List String) : String := "[" ++ " ".intercalate (sortDedup ns) ++ "]"
+
+def showValue (g : G) : String := "ok " ++ showGrammar (requote g)
+
+/-- an edit of slot `i` -/
+def histEdit (s : Hist.Store) (i : String) (f : G → G) : Option (String × Hist.Store) :=
+  i.toNat?.map fun i =>
+    match Hist.get s i with
+    | none => ("ok undefined", s)
+    | some g => (showValue (f g), Hist.set s i (f g))
+
+/-- a query of slot `i` -/
+def histQuery (s : Hist.Store) (i : String) (f : G → String) : Option (String × Hist.Store) :=
+  i.toNat?.map fun i =>
+    match Hist.get s i with
+    | none => ("ok undefined", s)
+    | some g => (f g, s)
+
+def showNullable (pre : String) (g : G) : String :=
+  match nullable g with
+  | .ok ns => pre ++ showNames ns
+  | .panic => "panic"
+  | .diverge => "hang"
+
+def histOp (s : Hist.Store) (ws : List String) : Option (String × Hist.Store) :=
+  match ws with
+  | ["apply", i, t, j] =>
+    match i.toNat?, j.toNat? with
+    | some i, some j =>
+      match Hist.get s i with
+      | none => if (Hist.transform t SGrammar.empty).isSome then some ("ok undefined", s) else none
+      | some g =>
+        match Hist.transform t g with
+        | none => none
+        | some (.ok g') => some (showValue g', Hist.set s j g')
+        | some o => some (showOutcome o, s)
+    | _, _ => none
+  | "addprod" :: i :: h :: ":" :: body =>
+    histEdit s i fun g => Hist.addProd g ⟨h, body.map (argSym g)⟩
+  | "rmprod" :: i :: h :: ":" :: body =>
+    histEdit s i fun g => Hist.rmProd g ⟨h, body.map (argSym g)⟩
+  | ["addnt", i, n] => histEdit s i fun g => Hist.addNT g n
+  | ["addterm", i, t] => histEdit s i fun g => Hist.addTerm g (bare t)
+  | ["nullable", i] => histQuery s i (showNullable "ok ")
+  | ["analyse", i] =>
+    histQuery s i fun g => if decide (Spec.Valid g) then showNullable "ok nullable=" g else "ok not-valid"
+  | ["prods", i] => histQuery s i showValue
+  | ["lang", i, k] =>
+    match k.toNat? with
+    | some k => if k ≤ 8 then histQuery s i (fun g => showLang g k) else none
+    | none => none
+  | ["eq", i, j] =>
+    match i.toNat?, j.toNat? with
+    | some i, some j =>
+      match Hist.get s i, Hist.get s j with
+      | some g, some h => some ("ok " ++ showBool (equalG g h), s)
+      | _, _ => some ("ok undefined", s)
+    | _, _ => none
+  | _ => none
+
+def runHistory (ops : List String) : List String := Id.run do
+  let mut g : SGrammar := SGrammar.empty
+  let mut store : Option Hist.Store := none
+  let mut stopped := false
+  let mut out : Array String := #[]
+  for line in ops do
+    if stopped then
+      out := out.push "skip"
+    else
+      let (g', consumed) := parseGrammarLine g line
+      if consumed && store.isNone then
+        g := g'
+        out := out.push "ok"
+      else
+        let s := store.getD [(0, normalize (unquote g))]
+        match histOp s (words line) with
+        | some (o, s') =>
+          store := some s'
+          out := out.push o
+          if o == "panic" || o == "hang" then stopped := true
+        | none =>
+          store := some s
+          out := out.push "bad-op"
+  return out.toList
+
+def runCase (hdr : List String) (ops : List String) : List String :=
+  if hdr.contains "comp=history" then runHistory ops else runWith (fun _ _ => none) ops
 
 end AlgoVerif.C08.Driver
